@@ -3,62 +3,103 @@ import P2sh.Spec.FilterSpec
 /-!
 # C20 — filter mode: the stream loop
 
-A model of `run_filters` with the filters abstracted by their meaning: filter `f` on packet
-number `np` (in state `σ`) yields a new state and whether the packet is selected
-(`Some true`), not (`Some false`), or fails (`None`: runtime error ⇒ the loop stops).
+**What is what.**
+* **MODEL** of `run_filters` (`src/main.rs`), hand-written from the code: the abstract fold of this
+  file (`Ans`, `pstep`, `onPacket`, `streamLoop` — the filters abstracted by what running one yields)
+  and, for the bytes, `Model/FilterOut.lean` (`filterOutput`) with the byte-sink loop `streamLoopB` /
+  `runFiltersOut` of `Props/C20Bytes.lean`.  A model is not verified against the Rust code by proof:
+  it is tied to the real binary by the end-to-end engine `tools/props/c20.py` (selections; stdout
+  byte for byte through driver op `filterout`; the failing and the non-boolean paths on fixed programs
+  judged against the Python mirror `stream_loop` of this fold).
+* **SPECIFICATION**: `FilterSpec.run` (`Spec/FilterSpec.lean`), written from the property statement
+  with filters evaluated by the reference semantics `Spec/Ref.lean`; `unc` where the documents are
+  silent (runtime error in a filter, non-boolean pattern, `end` reading PL/WL/TSS/TSU, …).
+* **What relates them**: `stream_loop_refines` — for runs where the specification is determined
+  (`.ok`), it *is* this fold instantiated with the specification's filters.  The theorems about the
+  fold alone (`multiplicity`, `failing_filter_keeps_earlier_selections`,
+  `nonboolean_result_skips_rest_of_packet`, `np_sequence`, …) are facts about the model; the ones with a
+  `FilterSpec.run … = .ok …` hypothesis are facts about the specification.
+
+The model: filter `f` on packet number `np` (in state `σ`) yields a new state and an `Ans`:
+`sel true` / `sel false` (`pop_filter_frame = Ok(b)`: the packet is written iff `b`), `fail`
+(`push_filter_frame` / `vm.run()` error ⇒ `break 'out`: the stream loop stops) or `skipRest`
+(`pop_filter_frame` error "filter expression must evaluate to a boolean" ⇒ a bare `break`: the
+remaining filters of this packet are skipped, `count += 1` runs, the next packet is processed).
 As in the code, a packet is written the moment a filter selects it: what the filters before a
-failing one selected on that packet stays selected, the later filters and packets do not run,
-and the `end` filter still runs, with NP at the failing packet.
+failing / non-boolean one selected on that packet stays selected; after `fail` the later packets do
+not run and the `end` filter still runs, with NP at the failing packet.
 
 * `selected_are_indices`, `end_np_is_count`, `selected_sorted` — the abstract loop;
 * `multiplicity` (+ `onPacket_answers`, `hitsPerPacket_numbers`, `hitsPerPacket_length`) — the output
   is, packet by packet, the packet's number once per filter that answered `true` (consecutive copies);
-* `failing_filter_keeps_earlier_selections` (+ `cleanRun`, `streamLoop_append_clean`) — the result
-  when the first failure is on the packet after a prefix: everything selected before, then the
-  failing packet's selections so far; NP stays there;
+* `failing_filter_keeps_earlier_selections` (+ `cleanRun`, `streamLoop_append_clean`, `onPacket_fail`) —
+  `break 'out`: everything selected before, then the failing packet's selections so far; NP stays there;
+* `nonboolean_result_skips_rest_of_packet` (+ `onPacket_skipRest`) — the bare `break`: the rest of that
+  packet's filters do not run, the stream goes on with the next packet;
 * `np_sequence` — the loop with every filter recording `(NP, its position)`: recording changes
-  nothing, and without failures the calls are packets in order × filters in source order, NP = index;
+  nothing, and when all results are booleans the calls are packets in order × filters in source order;
 * `stream_loop_refines` — the executable specification `FilterSpec.run` (the oracle of the
   end-to-end engine) *is* this loop, instantiated with σ := reference state × unread input,
   the packet-variable step `prep` (`set_curr_pkt` + `update_builtin_var`) followed by the
   program's filters run by `FilterSpec.runFilter` in the environment of the non-filter statements;
   the `end` filter runs once in the loop's final state with NP = number of packets;
-* for the specification: `order_preserved`, `selected_in_range`, `multiplicity_spec`,
-  `select_only_actionless`, `end_once`, `setVars_np`/`prep_np`.
+* for the specification: `order_preserved`, `selected_in_range`, `multiplicity_spec` (the multiplicities
+  are `hitsPerPacket`'s: the number of `sel true` answers on each packet), `select_only_actionless`,
+  `end_once` (the state is the loop's), `setVars_np`/`prep_np`.
 -/
 namespace P2sh.Props.C20
 
+/-- what running one filter on the current packet yields, as `run_filters` distinguishes it -/
+inductive Ans where
+  /-- `pop_filter_frame() = Ok(b)`: the packet is written iff `b` -/
+  | sel (b : Bool)
+  /-- `push_filter_frame` or `vm.run()` returned an error: `break 'out` — the stream loop ends -/
+  | fail
+  /-- `pop_filter_frame()` returned an error (the filter's result is not a boolean): a bare `break` —
+  only the `for filter in &filters` loop is left: the remaining filters of *this* packet are skipped,
+  `count += 1` runs and the next packet is processed -/
+  | skipRest
+deriving DecidableEq, Repr
+
 structure Filter (σ : Type) where
-  run : σ → Nat → σ × Option Bool      -- state, NP ↦ new state, selection
+  run : σ → Nat → σ × Ans      -- state, NP ↦ new state, outcome
+
+/-- where the per-packet loop stands: still running filters, left by the bare `break` (this packet
+is done, the stream goes on), or left by `break 'out` (the stream is done) -/
+inductive Status where
+  | run | skip | stop
+deriving DecidableEq, Repr
 
 /-- one filter of the per-packet loop: state, the packet's selections so far (each one is a
-packet already written), and whether a filter has failed (then nothing more runs) -/
-def pstep {σ} (np : Nat) (acc : σ × List Nat × Bool) (f : Filter σ) : σ × List Nat × Bool :=
+packet already written), and the status -/
+def pstep {σ} (np : Nat) (acc : σ × List Nat × Status) (f : Filter σ) : σ × List Nat × Status :=
   match acc with
-  | (s, sel, true) => (s, sel, true)
-  | (s, sel, false) =>
+  | (s, sel, .skip) => (s, sel, .skip)
+  | (s, sel, .stop) => (s, sel, .stop)
+  | (s, sel, .run) =>
     match f.run s np with
-    | (s', some true) => (s', sel ++ [np], false)
-    | (s', some false) => (s', sel, false)
-    | (s', none) => (s', sel, true)
+    | (s', .sel true) => (s', sel ++ [np], .run)
+    | (s', .sel false) => (s', sel, .run)
+    | (s', .fail) => (s', sel, .stop)
+    | (s', .skipRest) => (s', sel, .skip)
 
 /-- all filters on one packet, in source order: the final state, the selections made (those made
-before a failing filter are kept: the packet has been written by then), and whether a filter
-failed (the stream loop stops) -/
-def onPacket {σ} (fs : List (Filter σ)) (st : σ) (np : Nat) : σ × List Nat × Bool :=
-  fs.foldl (pstep np) (st, [], false)
+before a failing filter are kept: the packet has been written by then), and how the loop was left -/
+def onPacket {σ} (fs : List (Filter σ)) (st : σ) (np : Nat) : σ × List Nat × Status :=
+  fs.foldl (pstep np) (st, [], .run)
 
 /-- the `'out` loop of `run_filters`: packets are numbered from `count`; returns the final
 state, the selected packet numbers in output order, and the NP the `end` filter sees (the `end`
-filter runs after a failure too, with NP still at the failing packet) -/
+filter runs after a failure too, with NP still at the failing packet); a packet left by the bare
+`break` (`Status.skip`) counts like any other -/
 def streamLoop {σ} (fs : List (Filter σ)) : σ → Nat → List Unit → σ × List Nat × Nat
   | st, count, [] => (st, [], count - 1)
   | st, count, _ :: rest =>
     match onPacket fs st count with
-    | (st', sel, false) =>
+    | (st', sel, .stop) => (st', sel, count)   -- `break 'out`; NP stays at this packet
+    | (st', sel, _) =>
       let (st'', sel', n) := streamLoop fs st' (count + 1) rest
       (st'', sel ++ sel', n)
-    | (st', sel, true) => (st', sel, count)   -- a failing filter stops the loop; NP stays at this packet
 
 /-! ### the loop unfolded -/
 
@@ -66,66 +107,86 @@ theorem streamLoop_nil {σ} (fs : List (Filter σ)) (st : σ) (count : Nat) :
     streamLoop fs st count [] = (st, [], count - 1) := rfl
 
 theorem streamLoop_cons_ok {σ} (fs : List (Filter σ)) (st st' : σ) (count : Nat) (sel : List Nat)
-    (rest : List Unit) (u : Unit) (h : onPacket fs st count = (st', sel, false)) :
+    (rest : List Unit) (u : Unit) (stt : Status) (h : onPacket fs st count = (st', sel, stt))
+    (hs : stt ≠ .stop) :
     streamLoop fs st count (u :: rest) =
       ((streamLoop fs st' (count + 1) rest).1, sel ++ (streamLoop fs st' (count + 1) rest).2.1,
        (streamLoop fs st' (count + 1) rest).2.2) := by
-  simp only [streamLoop, h]
+  cases stt with
+  | stop => exact absurd rfl hs
+  | run => simp only [streamLoop, h]
+  | skip => simp only [streamLoop, h]
 
 theorem streamLoop_cons_fail {σ} (fs : List (Filter σ)) (st st' : σ) (count : Nat) (sel : List Nat)
-    (rest : List Unit) (u : Unit) (h : onPacket fs st count = (st', sel, true)) :
+    (rest : List Unit) (u : Unit) (h : onPacket fs st count = (st', sel, .stop)) :
     streamLoop fs st count (u :: rest) = (st', sel, count) := by
   simp only [streamLoop, h]
 
-theorem foldl_pstep_failed {σ} (np : Nat) (fs : List (Filter σ)) (s : σ) (sel : List Nat) :
-    fs.foldl (pstep np) (s, sel, true) = (s, sel, true) := by
+theorem foldl_pstep_halted {σ} (np : Nat) (fs : List (Filter σ)) (s : σ) (sel : List Nat) (stt : Status)
+    (h : stt ≠ .run) : fs.foldl (pstep np) (s, sel, stt) = (s, sel, stt) := by
   induction fs with
   | nil => rfl
-  | cons f fs ih => exact ih
+  | cons f fs ih =>
+    cases stt with
+    | run => exact absurd rfl h
+    | skip => exact ih
+    | stop => exact ih
 
-/-- the answers of the filters on one packet, in source order, up to and including the first
-failure (`none`) -/
-def answers {σ} : List (Filter σ) → σ → Nat → List (Option Bool)
+/-- the answers of the filters on one packet, in source order, up to and including the first one
+that is not a selection (`fail` or `skipRest`) -/
+def answers {σ} : List (Filter σ) → σ → Nat → List Ans
   | [], _, _ => []
   | f :: fs, st, np =>
     match f.run st np with
-    | (_, none) => [none]
-    | (s', some b) => some b :: answers fs s' np
+    | (s', .sel b) => .sel b :: answers fs s' np
+    | (_, a) => [a]
+
+/-- how the per-packet loop is left, from the answers -/
+def statusOf (as : List Ans) : Status :=
+  if .fail ∈ as then .stop else if .skipRest ∈ as then .skip else .run
+
+/-- how one answer leaves the per-packet loop -/
+def Ans.status : Ans → Status
+  | .sel _ => .run
+  | .fail => .stop
+  | .skipRest => .skip
+
+theorem pstep_run {σ} (np : Nat) (st s' : σ) (sel : List Nat) (f : Filter σ) (a : Ans)
+    (hr : f.run st np = (s', a)) :
+    pstep np (st, sel, .run) f =
+      (s', (if a = .sel true then sel ++ [np] else sel),
+       a.status) := by
+  rcases a with (_ | _) | _ | _ <;> simp [pstep, hr, Ans.status]
 
 theorem foldl_pstep_answers {σ} (np : Nat) :
     ∀ (fs : List (Filter σ)) (st : σ) (sel : List Nat),
-      (fs.foldl (pstep np) (st, sel, false)).2 =
-        (sel ++ List.replicate ((answers fs st np).count (some true)) np,
-         decide (none ∈ answers fs st np)) := by
+      (fs.foldl (pstep np) (st, sel, .run)).2 =
+        (sel ++ List.replicate ((answers fs st np).count (.sel true)) np,
+         statusOf (answers fs st np)) := by
   intro fs
   induction fs with
-  | nil => intro st sel; simp [answers]
+  | nil => intro st sel; simp [answers, statusOf]
   | cons f fs ih =>
     intro st sel
     rw [List.foldl_cons]
     cases hr : f.run st np with
-    | mk s' r =>
-      cases r with
-      | none =>
-        have : pstep np (st, sel, false) f = (s', sel, true) := by simp only [pstep, hr]
-        rw [this, foldl_pstep_failed]
-        simp [answers, hr]
-      | some b =>
-        cases b with
-        | true =>
-          have : pstep np (st, sel, false) f = (s', sel ++ [np], false) := by simp only [pstep, hr]
-          rw [this, ih]
-          simp [answers, hr, List.replicate_succ]
-        | false =>
-          have : pstep np (st, sel, false) f = (s', sel, false) := by simp only [pstep, hr]
-          rw [this, ih]
-          simp [answers, hr]
+    | mk s' a =>
+      rw [pstep_run np st s' sel f a hr]
+      rcases a with (_ | _) | _ | _
+      · show (fs.foldl (pstep np) (s', sel, .run)).2 = _
+        rw [ih]; simp [answers, hr, statusOf]
+      · show (fs.foldl (pstep np) (s', sel ++ [np], .run)).2 = _
+        rw [ih]; simp [answers, hr, statusOf, List.replicate_succ]
+      · show (fs.foldl (pstep np) (s', sel, .stop)).2 = _
+        rw [foldl_pstep_halted _ _ _ _ _ (by decide)]; simp [answers, hr, statusOf]
+      · show (fs.foldl (pstep np) (s', sel, .skip)).2 = _
+        rw [foldl_pstep_halted _ _ _ _ _ (by decide)]; simp [answers, hr, statusOf]
 
 /-- **multiplicity, one packet**: the packet is selected once per filter that answered `true`
-before the first failure, if any -/
+before the first failure / non-boolean result, if any; the status says which of the two it was -/
 theorem onPacket_answers {σ} (fs : List (Filter σ)) (st : σ) (np : Nat) :
     (onPacket fs st np).2 =
-      (List.replicate ((answers fs st np).count (some true)) np, decide (none ∈ answers fs st np)) := by
+      (List.replicate ((answers fs st np).count (.sel true)) np, statusOf (answers fs st np)) := by
   rw [onPacket, foldl_pstep_answers]
   simp
 
@@ -148,15 +209,14 @@ theorem selected_are_indices {σ} (fs : List (Filter σ)) :
     have hall := onPacket_sel_eq fs st count
     cases hop : onPacket fs st count with
     | mk st' r =>
-      obtain ⟨sel, failed⟩ := r
+      obtain ⟨sel, stt⟩ := r
       rw [hop] at hall
-      cases failed with
-      | true =>
+      by_cases hs : stt = .stop
+      · subst hs
         rw [streamLoop_cons_fail _ _ _ _ _ _ _ hop] at h
         have := hall n h
         simp only [List.length_cons]; omega
-      | false =>
-        rw [streamLoop_cons_ok _ _ _ _ _ _ _ hop] at h
+      · rw [streamLoop_cons_ok _ _ _ _ _ _ _ _ hop hs] at h
         simp only [List.mem_append] at h
         rcases h with h | h
         · have := hall n h
@@ -164,9 +224,10 @@ theorem selected_are_indices {σ} (fs : List (Filter σ)) :
         · have := ih st' (count + 1) n h
           simp only [List.length_cons]; omega
 
-/-- **the end filter sees the number of packets read** when no filter fails -/
+/-- **the end filter sees the number of packets read** when no filter fails (`break 'out`); packets
+left through the bare `break` count -/
 theorem end_np_is_count {σ} (fs : List (Filter σ))
-    (hok : ∀ s np, ∃ s' sel, (onPacket fs s np) = (s', sel, false)) :
+    (hok : ∀ s np, (onPacket fs s np).2.2 ≠ .stop) :
     ∀ (pkts : List Unit) (st : σ) (count : Nat),
       (streamLoop fs st count pkts).2.2 = count + pkts.length - 1 := by
   intro pkts
@@ -174,10 +235,14 @@ theorem end_np_is_count {σ} (fs : List (Filter σ))
   | nil => intro st count; simp [streamLoop]
   | cons p rest ih =>
     intro st count
-    obtain ⟨s', sel, h⟩ := hok st count
-    rw [streamLoop_cons_ok _ _ _ _ _ _ _ h]
-    simp only [ih, List.length_cons]
-    omega
+    have h := hok st count
+    cases hop : onPacket fs st count with
+    | mk st' r =>
+      obtain ⟨sel, stt⟩ := r
+      rw [hop] at h
+      rw [streamLoop_cons_ok _ _ _ _ _ _ _ _ hop h]
+      simp only [ih, List.length_cons]
+      omega
 
 /-- **packets are written in input order** -/
 theorem selected_sorted {σ} (fs : List (Filter σ)) :
@@ -191,19 +256,18 @@ theorem selected_sorted {σ} (fs : List (Filter σ)) :
     have hall := onPacket_sel_eq fs st count
     cases hop : onPacket fs st count with
     | mk st' r =>
-      obtain ⟨sel, failed⟩ := r
+      obtain ⟨sel, stt⟩ := r
       rw [hop] at hall
       have hsel : List.Pairwise (· ≤ ·) sel := by
         apply List.pairwise_of_forall_mem_list
         intro a ha b hb
         rw [hall a ha, hall b hb]
         exact Nat.le_refl _
-      cases failed with
-      | true =>
+      by_cases hs : stt = .stop
+      · subst hs
         rw [streamLoop_cons_fail _ _ _ _ _ _ _ hop]
         exact hsel
-      | false =>
-        rw [streamLoop_cons_ok _ _ _ _ _ _ _ hop]
+      · rw [streamLoop_cons_ok _ _ _ _ _ _ _ _ hop hs]
         simp only
         rw [List.pairwise_append]
         refine ⟨hsel, ih st' (count + 1), ?_⟩
@@ -215,14 +279,29 @@ theorem selected_sorted {σ} (fs : List (Filter σ)) :
 /-! ### multiplicity -/
 
 /-- per packet the loop reached, in order: its number and how many filters answered `true` on it
-(before the first failure, for the last one) -/
+(before the first failure or non-boolean result) -/
 def hitsPerPacket {σ} (fs : List (Filter σ)) : σ → Nat → List Unit → List (Nat × Nat)
   | _, _, [] => []
   | st, count, _ :: rest =>
     match onPacket fs st count with
-    | (st', _, false) =>
-      (count, (answers fs st count).count (some true)) :: hitsPerPacket fs st' (count + 1) rest
-    | (_, _, true) => [(count, (answers fs st count).count (some true))]
+    | (_, _, .stop) => [(count, (answers fs st count).count (.sel true))]
+    | (st', _, _) =>
+      (count, (answers fs st count).count (.sel true)) :: hitsPerPacket fs st' (count + 1) rest
+
+theorem hitsPerPacket_cons_ok {σ} (fs : List (Filter σ)) (st st' : σ) (count : Nat) (sel : List Nat)
+    (rest : List Unit) (u : Unit) (stt : Status) (h : onPacket fs st count = (st', sel, stt))
+    (hs : stt ≠ .stop) :
+    hitsPerPacket fs st count (u :: rest) =
+      (count, (answers fs st count).count (.sel true)) :: hitsPerPacket fs st' (count + 1) rest := by
+  cases stt with
+  | stop => exact absurd rfl hs
+  | run => simp only [hitsPerPacket, h]
+  | skip => simp only [hitsPerPacket, h]
+
+theorem hitsPerPacket_cons_fail {σ} (fs : List (Filter σ)) (st st' : σ) (count : Nat) (sel : List Nat)
+    (rest : List Unit) (u : Unit) (h : onPacket fs st count = (st', sel, .stop)) :
+    hitsPerPacket fs st count (u :: rest) = [(count, (answers fs st count).count (.sel true))] := by
+  simp only [hitsPerPacket, h]
 
 /-- **multiplicity**: the output is, packet by packet in input order, the packet's number
 repeated once per filter that answered `true` on it — so the copies of one packet are consecutive -/
@@ -238,16 +317,15 @@ theorem multiplicity {σ} (fs : List (Filter σ)) :
     have ha := onPacket_answers fs st count
     cases hop : onPacket fs st count with
     | mk st' r =>
-      obtain ⟨sel, failed⟩ := r
+      obtain ⟨sel, stt⟩ := r
       rw [hop] at ha
       simp only [Prod.mk.injEq] at ha
-      cases failed with
-      | true =>
-        rw [streamLoop_cons_fail _ _ _ _ _ _ _ hop]
-        simp only [hitsPerPacket, hop, List.flatMap_cons, List.flatMap_nil, List.append_nil, ha.1]
-      | false =>
-        rw [streamLoop_cons_ok _ _ _ _ _ _ _ hop]
-        simp only [hitsPerPacket, hop, List.flatMap_cons, ih, ha.1]
+      by_cases hs : stt = .stop
+      · subst hs
+        rw [streamLoop_cons_fail _ _ _ _ _ _ _ hop, hitsPerPacket_cons_fail _ _ _ _ _ _ _ hop]
+        simp only [List.flatMap_cons, List.flatMap_nil, List.append_nil, ha.1]
+      · rw [streamLoop_cons_ok _ _ _ _ _ _ _ _ hop hs, hitsPerPacket_cons_ok _ _ _ _ _ _ _ _ hop hs]
+        simp only [List.flatMap_cons, ih, ha.1]
 
 /-- the packets of `hitsPerPacket` are numbered consecutively from `count` -/
 theorem hitsPerPacket_numbers {σ} (fs : List (Filter σ)) :
@@ -261,15 +339,16 @@ theorem hitsPerPacket_numbers {σ} (fs : List (Filter σ)) :
     intro st count
     cases hop : onPacket fs st count with
     | mk st' r =>
-      obtain ⟨sel, failed⟩ := r
-      cases failed with
-      | true => simp only [hitsPerPacket, hop]; rfl
-      | false =>
-        simp only [hitsPerPacket, hop, List.map_cons, List.length_cons, ih, List.range'_succ]
+      obtain ⟨sel, stt⟩ := r
+      by_cases hs : stt = .stop
+      · subst hs
+        rw [hitsPerPacket_cons_fail _ _ _ _ _ _ _ hop]; rfl
+      · rw [hitsPerPacket_cons_ok _ _ _ _ _ _ _ _ hop hs]
+        simp only [List.map_cons, List.length_cons, ih, List.range'_succ]
 
 /-- … and all packets are there when no filter fails -/
 theorem hitsPerPacket_length {σ} (fs : List (Filter σ))
-    (hok : ∀ s np, ∃ s' sel, (onPacket fs s np) = (s', sel, false)) :
+    (hok : ∀ s np, (onPacket fs s np).2.2 ≠ .stop) :
     ∀ (pkts : List Unit) (st : σ) (count : Nat),
       (hitsPerPacket fs st count pkts).length = pkts.length := by
   intro pkts
@@ -277,18 +356,32 @@ theorem hitsPerPacket_length {σ} (fs : List (Filter σ))
   | nil => intro st count; rfl
   | cons u rest ih =>
     intro st count
-    obtain ⟨s', sel, h⟩ := hok st count
-    simp only [hitsPerPacket, h, List.length_cons, ih]
+    have h := hok st count
+    cases hop : onPacket fs st count with
+    | mk st' r =>
+      obtain ⟨sel, stt⟩ := r
+      rw [hop] at h
+      rw [hitsPerPacket_cons_ok _ _ _ _ _ _ _ _ hop h]
+      simp only [List.length_cons, ih]
 
-/-! ### a failing filter -/
+/-! ### a failing filter, and a filter whose result is not a boolean -/
 
-/-- the state after `pkts` when no filter fails on them (`none` otherwise) -/
+/-- the state after `pkts` when no filter fails on them (`none` otherwise); packets left through
+the bare `break` are clean in this sense: the stream goes on -/
 def cleanRun {σ} (fs : List (Filter σ)) : σ → Nat → List Unit → Option σ
   | st, _, [] => some st
   | st, count, _ :: rest =>
     match onPacket fs st count with
-    | (st', _, false) => cleanRun fs st' (count + 1) rest
-    | (_, _, true) => none
+    | (_, _, .stop) => none
+    | (st', _, _) => cleanRun fs st' (count + 1) rest
+
+theorem cleanRun_cons_ok {σ} (fs : List (Filter σ)) (st st' : σ) (count : Nat) (sel : List Nat)
+    (rest : List Unit) (u : Unit) (stt : Status) (h : onPacket fs st count = (st', sel, stt))
+    (hs : stt ≠ .stop) : cleanRun fs st count (u :: rest) = cleanRun fs st' (count + 1) rest := by
+  cases stt with
+  | stop => exact absurd rfl hs
+  | run => simp only [cleanRun, h]
+  | skip => simp only [cleanRun, h]
 
 /-- the loop over a prefix on which nothing fails, then the rest -/
 theorem streamLoop_append_clean {σ} (fs : List (Filter σ)) (post : List Unit) :
@@ -308,32 +401,81 @@ theorem streamLoop_append_clean {σ} (fs : List (Filter σ)) (post : List Unit) 
     intro st count s1 h
     cases hop : onPacket fs st count with
     | mk st' r =>
-      obtain ⟨sel, failed⟩ := r
-      cases failed with
-      | true => simp [cleanRun, hop] at h
-      | false =>
-        simp only [cleanRun, hop] at h
-        rw [List.cons_append, streamLoop_cons_ok _ _ _ _ _ _ _ hop, streamLoop_cons_ok _ _ _ _ _ _ _ hop,
-          ih st' (count + 1) s1 h]
+      obtain ⟨sel, stt⟩ := r
+      by_cases hs : stt = .stop
+      · subst hs; simp [cleanRun, hop] at h
+      · rw [cleanRun_cons_ok _ _ _ _ _ _ _ _ hop hs] at h
+        rw [List.cons_append, streamLoop_cons_ok _ _ _ _ _ _ _ _ hop hs,
+          streamLoop_cons_ok _ _ _ _ _ _ _ _ hop hs, ih st' (count + 1) s1 h]
         simp only [List.length_cons, List.append_assoc]
         rw [show count + 1 + pre.length = count + (pre.length + 1) by omega]
 
-/-- **failing_filter_keeps_earlier_selections**: when the first failure happens on the packet after
-`pre`, the result is everything selected on the earlier packets, then what the filters before the
-failing one selected on that packet (it has been written by then); the loop stops there, and NP
-stays at that packet for the `end` filter -/
+/-- **failing_filter_keeps_earlier_selections** (`break 'out`: an error from `push_filter_frame` or
+`vm.run()`): when the first such failure happens on the packet after `pre`, the result is
+everything selected on the earlier packets, then what the filters before the failing one selected
+on that packet (it has been written by then); the loop stops there — no later packet is read — and
+NP stays at that packet for the `end` filter.  (A filter whose *result* is not a boolean is the
+other kind: `nonboolean_result_skips_rest_of_packet`.) -/
 theorem failing_filter_keeps_earlier_selections {σ} (fs : List (Filter σ)) (pre post : List Unit)
     (u : Unit) (st s1 s2 : σ) (count : Nat) (sel : List Nat)
     (hclean : cleanRun fs st count pre = some s1)
-    (hfail : onPacket fs s1 (count + pre.length) = (s2, sel, true)) :
+    (hfail : onPacket fs s1 (count + pre.length) = (s2, sel, .stop)) :
     streamLoop fs st count (pre ++ u :: post) =
       (s2, (streamLoop fs st count pre).2.1 ++ sel, count + pre.length) ∧
-    sel = List.replicate ((answers fs s1 (count + pre.length)).count (some true)) (count + pre.length) := by
-  constructor
+    sel = List.replicate ((answers fs s1 (count + pre.length)).count (.sel true)) (count + pre.length) ∧
+    Ans.fail ∈ answers fs s1 (count + pre.length) := by
+  have := onPacket_answers fs s1 (count + pre.length)
+  rw [hfail] at this
+  refine ⟨?_, (Prod.mk.inj this).1, ?_⟩
   · rw [streamLoop_append_clean fs _ pre st count s1 hclean, streamLoop_cons_fail _ _ _ _ _ _ _ hfail]
-  · have := onPacket_answers fs s1 (count + pre.length)
-    rw [hfail] at this
-    exact (Prod.mk.inj this).1
+  · have h2 := (Prod.mk.inj this).2
+    unfold statusOf at h2
+    split at h2
+    · assumption
+    · split at h2 <;> cases h2
+
+/-- one packet, filters `pre ++ f :: post`: the filters of `pre` all return booleans (from `st` to
+`s1`), then `f`'s result is not a boolean: the filters of `post` do not run (the state is `f`'s),
+the selections of `pre` stay, the status is `skip` -/
+theorem onPacket_skipRest {σ} (pre post : List (Filter σ)) (f : Filter σ) (st s1 s2 : σ) (np : Nat)
+    (sel : List Nat) (hpre : onPacket pre st np = (s1, sel, .run)) (hf : f.run s1 np = (s2, .skipRest)) :
+    onPacket (pre ++ f :: post) st np = (s2, sel, .skip) := by
+  unfold onPacket at hpre ⊢
+  rw [List.foldl_append, hpre, List.foldl_cons]
+  have : pstep np (s1, sel, .run) f = (s2, sel, .skip) := by simp only [pstep, hf]
+  rw [this, foldl_pstep_halted _ _ _ _ _ (by decide)]
+
+/-- … and with `fail` instead: the same, with status `stop` -/
+theorem onPacket_fail {σ} (pre post : List (Filter σ)) (f : Filter σ) (st s1 s2 : σ) (np : Nat)
+    (sel : List Nat) (hpre : onPacket pre st np = (s1, sel, .run)) (hf : f.run s1 np = (s2, .fail)) :
+    onPacket (pre ++ f :: post) st np = (s2, sel, .stop) := by
+  unfold onPacket at hpre ⊢
+  rw [List.foldl_append, hpre, List.foldl_cons]
+  have : pstep np (s1, sel, .run) f = (s2, sel, .stop) := by simp only [pstep, hf]
+  rw [this, foldl_pstep_halted _ _ _ _ _ (by decide)]
+
+/-- **nonboolean_result_skips_rest_of_packet** (the bare `break` after `pop_filter_frame` returned
+"filter expression must evaluate to a boolean"): when, on the packet after the clean prefix `pre`,
+the filters `fpre` return booleans and then `f`'s result is not a boolean, the filters after `f` do
+not run on that packet, what `fpre` selected stays selected — and, unlike after a failure, the
+stream goes on: the next packet is processed with NP one higher, from the state `f` left, and the
+`end` filter sees what the rest of the stream makes of NP -/
+theorem nonboolean_result_skips_rest_of_packet {σ} (fpre fpost : List (Filter σ)) (f : Filter σ)
+    (pre post : List Unit) (u : Unit) (st s1 s1' s2 : σ) (count : Nat) (sel : List Nat)
+    (hclean : cleanRun (fpre ++ f :: fpost) st count pre = some s1)
+    (hpre : onPacket fpre s1 (count + pre.length) = (s1', sel, .run))
+    (hf : f.run s1' (count + pre.length) = (s2, .skipRest)) :
+    onPacket (fpre ++ f :: fpost) s1 (count + pre.length) = (s2, sel, .skip) ∧
+    streamLoop (fpre ++ f :: fpost) st count (pre ++ u :: post) =
+      ((streamLoop (fpre ++ f :: fpost) s2 (count + pre.length + 1) post).1,
+       (streamLoop (fpre ++ f :: fpost) st count pre).2.1 ++ sel ++
+         (streamLoop (fpre ++ f :: fpost) s2 (count + pre.length + 1) post).2.1,
+       (streamLoop (fpre ++ f :: fpost) s2 (count + pre.length + 1) post).2.2) := by
+  have hop := onPacket_skipRest fpre fpost f s1 s1' s2 (count + pre.length) sel hpre hf
+  refine ⟨hop, ?_⟩
+  rw [streamLoop_append_clean _ _ pre st count s1 hclean,
+    streamLoop_cons_ok _ _ _ _ _ _ _ _ hop (by decide)]
+  simp only [List.append_assoc]
 
 
 /-! ### which filter runs with which NP: the loop with a call log -/
@@ -349,37 +491,26 @@ def instr {σ} : Nat → List (Filter σ) → List (Filter (σ × List (Nat × N
 theorem foldl_instr {σ} (np : Nat) :
     ∀ (fs : List (Filter σ)) (j : Nat) (st : σ) (log : List (Nat × Nat)) (sel : List Nat),
       ∃ m, m ≤ fs.length ∧
-        (instr j fs).foldl (pstep np) ((st, log), sel, false) =
-          (((fs.foldl (pstep np) (st, sel, false)).1,
+        (instr j fs).foldl (pstep np) ((st, log), sel, .run) =
+          (((fs.foldl (pstep np) (st, sel, .run)).1,
             log ++ (List.range' j m).map (fun k => (np, k))),
-           (fs.foldl (pstep np) (st, sel, false)).2) ∧
-        ((fs.foldl (pstep np) (st, sel, false)).2.2 = false → m = fs.length) := by
+           (fs.foldl (pstep np) (st, sel, .run)).2) ∧
+        ((fs.foldl (pstep np) (st, sel, .run)).2.2 = .run → m = fs.length) := by
   intro fs
   induction fs with
   | nil => intro j st log sel; exact ⟨0, Nat.le_refl _, by simp [instr], fun _ => rfl⟩
   | cons f fs ih =>
     intro j st log sel
     cases hr : f.run st np with
-    | mk s' r =>
-      cases r with
-      | none =>
-        have h1 : pstep np (st, sel, false) f = (s', sel, true) := by simp only [pstep, hr]
-        have h2 : pstep np ((st, log), sel, false) (logged j f) =
-            ((s', log ++ [(np, j)]), sel, true) := by simp [logged, pstep, hr]
-        refine ⟨1, by simp, ?_, ?_⟩
-        · simp only [instr, List.foldl_cons]
-          rw [h1, h2, foldl_pstep_failed, foldl_pstep_failed]
-          simp
-        · intro hne
-          rw [List.foldl_cons, h1, foldl_pstep_failed] at hne
-          cases hne
-      | some b =>
-        have h1 : pstep np (st, sel, false) f = (s', (if b then sel ++ [np] else sel), false) := by
-          cases b <;> simp only [pstep, hr] <;> rfl
-        have h2 : pstep np ((st, log), sel, false) (logged j f) =
-            ((s', log ++ [(np, j)]), (if b then sel ++ [np] else sel), false) := by
-          cases b <;> simp [logged, pstep, hr]
-        obtain ⟨m, hm, he, hfull⟩ := ih (j + 1) s' (log ++ [(np, j)]) (if b then sel ++ [np] else sel)
+    | mk s' a =>
+      have h1 := pstep_run np st s' sel f a hr
+      have h2 : pstep np ((st, log), sel, .run) (logged j f) =
+          ((s', log ++ [(np, j)]), (if a = .sel true then sel ++ [np] else sel), a.status) :=
+        pstep_run np (st, log) (s', log ++ [(np, j)]) sel (logged j f) a (by simp [logged, hr])
+      by_cases ha : a.status = .run
+      · rw [ha] at h1 h2
+        obtain ⟨m, hm, he, hfull⟩ :=
+          ih (j + 1) s' (log ++ [(np, j)]) (if a = .sel true then sel ++ [np] else sel)
         refine ⟨m + 1, by simp; omega, ?_, ?_⟩
         · simp only [instr, List.foldl_cons]
           rw [h1, h2, he]
@@ -387,16 +518,24 @@ theorem foldl_instr {σ} (np : Nat) :
         · intro hne
           rw [List.foldl_cons, h1] at hne
           simp [hfull hne]
+      · refine ⟨1, by simp, ?_, ?_⟩
+        · simp only [instr, List.foldl_cons]
+          rw [h1, h2, foldl_pstep_halted _ _ _ _ _ ha, foldl_pstep_halted _ _ _ _ _ ha]
+          simp
+        · intro hne
+          rw [List.foldl_cons, h1, foldl_pstep_halted _ _ _ _ _ ha] at hne
+          exact absurd hne ha
 
-/-- **np_sequence**: recording the calls changes nothing (first part), and when no filter fails
-the calls are: for each packet `i` in order, filters `0 … n-1` in source order, each with NP = `i` -/
+/-- **np_sequence**: recording the calls changes nothing (first part), and when every filter
+returns a boolean on every packet the calls are: for each packet `i` in order, filters `0 … n-1`
+in source order, each with NP = `i` -/
 theorem np_sequence {σ} (fs : List (Filter σ)) :
     ∀ (pkts : List Unit) (st : σ) (log : List (Nat × Nat)) (count : Nat),
       ∃ calls,
         streamLoop (instr 0 fs) (st, log) count pkts =
           (((streamLoop fs st count pkts).1, log ++ calls),
            (streamLoop fs st count pkts).2.1, (streamLoop fs st count pkts).2.2) ∧
-        ((∀ s np, ∃ s' sel, (onPacket fs s np) = (s', sel, false)) →
+        ((∀ s np, (onPacket fs s np).2.2 = .run) →
           calls = (List.range' count pkts.length).flatMap
             (fun i => (List.range' 0 fs.length).map (fun j => (i, j)))) := by
   intro pkts
@@ -406,29 +545,29 @@ theorem np_sequence {σ} (fs : List (Filter σ)) :
     intro st log count
     obtain ⟨m, hm, he, hfull⟩ := foldl_instr count fs 0 st log []
     change onPacket (instr 0 fs) (st, log) count = ((((onPacket fs st count).1), _), (onPacket fs st count).2) at he
-    change (onPacket fs st count).2.2 = false → _ at hfull
+    change (onPacket fs st count).2.2 = .run → _ at hfull
     cases hop : onPacket fs st count with
     | mk st' r =>
-      obtain ⟨sel, failed⟩ := r
+      obtain ⟨sel, stt⟩ := r
       rw [hop] at he hfull
-      cases failed with
-      | true =>
+      by_cases hs : stt = .stop
+      · subst hs
         refine ⟨(List.range' 0 m).map (fun k => (count, k)), ?_, ?_⟩
         · rw [streamLoop_cons_fail _ _ _ _ _ _ _ he, streamLoop_cons_fail _ _ _ _ _ _ _ hop]
         · intro hok
-          obtain ⟨s', sel', h⟩ := hok st count
-          rw [h] at hop; cases hop
-      | false =>
-        have hmf := hfull rfl
-        subst hmf
-        obtain ⟨calls, hc, hcf⟩ := ih st' (log ++ (List.range' 0 fs.length).map (fun k => (count, k))) (count + 1)
-        refine ⟨(List.range' 0 fs.length).map (fun k => (count, k)) ++ calls, ?_, ?_⟩
-        · rw [streamLoop_cons_ok _ _ _ _ _ _ _ he, streamLoop_cons_ok _ _ _ _ _ _ _ hop, hc]
+          have := hok st count
+          rw [hop] at this; cases this
+      · obtain ⟨calls, hc, hcf⟩ := ih st' (log ++ (List.range' 0 m).map (fun k => (count, k))) (count + 1)
+        refine ⟨(List.range' 0 m).map (fun k => (count, k)) ++ calls, ?_, ?_⟩
+        · rw [streamLoop_cons_ok _ _ _ _ _ _ _ _ he hs, streamLoop_cons_ok _ _ _ _ _ _ _ _ hop hs, hc]
           simp
         · intro hok
+          have hrun := hok st count
+          rw [hop] at hrun
+          have hmf := hfull hrun
+          subst hmf
           rw [hcf hok]
           simp [List.range'_succ]
-
 
 /-! ## the specification is the stream loop -/
 open P2sh P2sh.Ref P2sh.FilterSpec
@@ -443,13 +582,19 @@ abbrev LoopSt := St × List Pkt
 the step before the filters; it selects nothing; with no input left the loop stops -/
 def prep : Filter LoopSt :=
   ⟨fun s np => match s.2 with
-    | pk :: rest => ((setVars s.1 (.int (Int64.ofNat np)) (some pk), rest), some false)
-    | [] => (s, none)⟩
+    | pk :: rest => ((setVars s.1 (.int (Int64.ofNat np)) (some pk), rest), .sel false)
+    | [] => (s, .fail)⟩
+
+/-- the specification's answer as an answer of the loop; `none` (the documents do not determine the
+outcome: the whole run is `unc`) never occurs in an `.ok` run — it is mapped to `fail` -/
+def ansOf : Option Bool → Ans
+  | some b => .sel b
+  | none => .fail
 
 /-- a filter of the program, run by the specification's `runFilter` in the environment the
 non-filter statements left -/
 def filterOf (env : Env) (f : FPat × Option Block) : Filter LoopSt :=
-  ⟨fun s _ => (((runFilter env s.1 f.1 f.2).2, s.2), (runFilter env s.1 f.1 f.2).1)⟩
+  ⟨fun s _ => (((runFilter env s.1 f.1 f.2).2, s.2), ansOf (runFilter env s.1 f.1 f.2).1)⟩
 
 def plainOf (p : Program) : List Stmt :=
   p.stmts.filter fun s => match s with | .filter .. => false | _ => true
@@ -478,8 +623,8 @@ theorem each_fold (env : Env) (idx : Nat) (input : List Pkt) :
     ∀ (fs : List (FPat × Option Block)) (st : St) (sel acc : List Nat) (st' : St) (sel' : List Nat),
       FilterSpec.run.loop.each env idx fs st sel = some (st', sel') →
       ∃ new, sel' = sel ++ new ∧
-        (fs.map (filterOf env)).foldl (pstep idx) ((st, input), acc, false)
-          = ((st', input), acc ++ new, false) := by
+        (fs.map (filterOf env)).foldl (pstep idx) ((st, input), acc, .run)
+          = ((st', input), acc ++ new, .run) := by
   intro fs
   induction fs with
   | nil =>
@@ -494,11 +639,11 @@ theorem each_fold (env : Env) (idx : Nat) (input : List Pkt) :
     cases hr : runFilter env st pat act with
     | mk r st1 =>
       rw [hr] at h
-      have hstep : ∀ b, r = some b → pstep idx ((st, input), acc, false) (filterOf env (pat, act)) =
-          ((st1, input), (if b then acc ++ [idx] else acc), false) := by
+      have hstep : ∀ b, r = some b → pstep idx ((st, input), acc, .run) (filterOf env (pat, act)) =
+          ((st1, input), (if b then acc ++ [idx] else acc), .run) := by
         intro b hb
         subst hb
-        simp only [pstep, filterOf, hr]
+        simp only [pstep, filterOf, hr, ansOf]
         cases b <;> rfl
       cases r with
       | none => simp at h
@@ -522,12 +667,12 @@ theorem onPacket_spec (env : Env) (fs : List (FPat × Option Block)) (idx : Nat)
     (h : FilterSpec.run.loop.each env idx fs (setVars st (.int (Int64.ofNat idx)) (some pk)) sel
       = some (st', sel')) :
     ∃ new, sel' = sel ++ new ∧
-      onPacket (prep :: fs.map (filterOf env)) (st, pk :: rest) idx = ((st', rest), new, false) := by
+      onPacket (prep :: fs.map (filterOf env)) (st, pk :: rest) idx = ((st', rest), new, .run) := by
   obtain ⟨new, h1, h2⟩ := each_fold env idx rest fs _ sel [] st' sel' h
   refine ⟨new, h1, ?_⟩
   rw [onPacket, List.foldl_cons]
-  have : pstep idx ((st, pk :: rest), [], false) prep =
-      ((setVars st (.int (Int64.ofNat idx)) (some pk), rest), [], false) := rfl
+  have : pstep idx ((st, pk :: rest), [], .run) prep =
+      ((setVars st (.int (Int64.ofNat idx)) (some pk), rest), [], .run) := rfl
   rw [this, h2]
   simp
 
@@ -559,11 +704,12 @@ theorem loop_streamLoop (env : Env) (fs : List (FPat × Option Block)) :
       simp only [] at h
       obtain ⟨new, h1, h2⟩ := onPacket_spec env fs idx st pk rest sel st' sel' he
       obtain ⟨i1, i2, i3, i4⟩ := ih (idx + 1) st' sel' st1 selF h
-      rw [List.map_cons, streamLoop_cons_ok _ _ _ _ _ _ _ h2]
+      rw [List.map_cons, streamLoop_cons_ok _ _ _ _ _ _ _ _ h2 (by decide)]
       refine ⟨?_, i2, ?_, ?_⟩
       · rw [i1, h1, List.append_assoc]
       · simp only [i3, List.length_cons]; omega
-      · simp only [hitsPerPacket, h2, List.length_cons, i4]
+      · rw [hitsPerPacket_cons_ok _ _ _ _ _ _ _ _ h2 (by decide)]
+        simp only [List.length_cons, i4]
 
 
 /-- the `.ok` outcomes of the specification, taken apart: the non-filter statements ran, its
@@ -682,40 +828,93 @@ theorem select_only_actionless (env : Env) (st : St) (pat : FPat) (act : Option 
     repeat' split at h
     all_goals first | cases h | skip
 
-/-- **multiplicity** for the specification: the selection is, for packets 1, 2, …, n in order,
-the packet's number repeated once per filter that answered `true` on it (`k i` times, consecutively);
-those filters are action-less (`select_only_actionless`) -/
+/-- what `hitsPerPacket` lists: for every packet `i` the loop reached, the number of `sel true`
+answers of the filters run on it, from the state the (clean) run over the packets before it left -/
+theorem hitsPerPacket_mem {σ} (fs : List (Filter σ)) :
+    ∀ (pkts : List Unit) (st : σ) (count : Nat) (ik : Nat × Nat), ik ∈ hitsPerPacket fs st count pkts →
+      count ≤ ik.1 ∧ ∃ si, cleanRun fs st count (pkts.take (ik.1 - count)) = some si ∧
+        ik.2 = (answers fs si ik.1).count (.sel true) := by
+  intro pkts
+  induction pkts with
+  | nil => intro st count ik h; simp [hitsPerPacket] at h
+  | cons u rest ih =>
+    intro st count ik h
+    cases hop : onPacket fs st count with
+    | mk st' r =>
+      obtain ⟨sel, stt⟩ := r
+      have hhead : ik = (count, (answers fs st count).count (.sel true)) →
+          count ≤ ik.1 ∧ ∃ si, cleanRun fs st count ((u :: rest).take (ik.1 - count)) = some si ∧
+            ik.2 = (answers fs si ik.1).count (.sel true) := by
+        intro he
+        subst he
+        exact ⟨Nat.le_refl _, st, by simp [cleanRun], rfl⟩
+      by_cases hs : stt = .stop
+      · subst hs
+        rw [hitsPerPacket_cons_fail _ _ _ _ _ _ _ hop] at h
+        exact hhead (by simpa using h)
+      · rw [hitsPerPacket_cons_ok _ _ _ _ _ _ _ _ hop hs] at h
+        rcases List.mem_cons.mp h with h | h
+        · exact hhead h
+        · obtain ⟨h1, si, h2, h3⟩ := ih st' (count + 1) ik h
+          refine ⟨by omega, si, ?_, h3⟩
+          rw [show ik.1 - count = (ik.1 - (count + 1)) + 1 by omega, List.take_succ_cons,
+            cleanRun_cons_ok _ _ _ _ _ _ _ _ hop hs]
+          exact h2
+
+/-- **multiplicity** for the specification, with the multiplicities named: with
+`hp := hitsPerPacket (filtersOf env p) …` — for each packet its number and the number of filters that
+answered `sel true` on it (`hitsPerPacket_mem`) — the packets listed are 1, 2, …, n and the selection
+is, in that order, each packet's number repeated that many times (consecutively); the filters that
+answer `true` are action-less (`select_only_actionless`) -/
 theorem multiplicity_spec (p : Program) (pkts : List Pkt) (sel : List Nat) (out : List String)
     (e : Bool) (h : FilterSpec.run p pkts = .ok sel out e) :
-    ∃ k : List Nat, k.length = pkts.length ∧
-      sel = ((List.range' 1 pkts.length).zip k).flatMap (fun ik => List.replicate ik.2 ik.1) := by
+    ∃ env st0, initOf p = some (env, st0) ∧
+      (hitsPerPacket (filtersOf env p) (st0, pkts) 1 (pkts.map fun _ => ())).map Prod.fst
+        = List.range' 1 pkts.length ∧
+      sel = (hitsPerPacket (filtersOf env p) (st0, pkts) 1 (pkts.map fun _ => ())).flatMap
+        (fun ik => List.replicate ik.2 ik.1) ∧
+      sel = ((List.range' 1 pkts.length).zip
+          ((hitsPerPacket (filtersOf env p) (st0, pkts) 1 (pkts.map fun _ => ())).map Prod.snd)).flatMap
+        (fun ik => List.replicate ik.2 ik.1) := by
   obtain ⟨env, st0, st1, hi, hloop, hend⟩ := run_ok p pkts sel out e h
   obtain ⟨l1, _, _, l4⟩ := loop_streamLoop env (filterList p) pkts 1 st0 [] st1 sel hloop
   simp only [List.nil_append] at l1
   have hm := multiplicity (prep :: (filterList p).map (filterOf env)) (pkts.map fun _ => ()) (st0, pkts) 1
   have hn := hitsPerPacket_numbers (prep :: (filterList p).map (filterOf env)) (pkts.map fun _ => ()) (st0, pkts) 1
+  refine ⟨env, st0, hi, ?_⟩
+  show _ ∧ _ ∧ _
+  unfold filtersOf
   generalize hitsPerPacket (prep :: (filterList p).map (filterOf env)) (st0, pkts) 1 (pkts.map fun _ => ()) = hp at *
-  refine ⟨hp.map Prod.snd, by simp [l4], ?_⟩
+  rw [l4] at hn
+  refine ⟨hn, by rw [l1, hm], ?_⟩
   rw [l1, hm]
   congr 1
-  rw [l4] at hn
   exact List.zip_of_prod hn rfl
 
-/-- **end_once**: the `end` filter runs exactly once if the program has one (and then in the state
-the stream left, with NP = the number of packets read — `stream_loop_refines`), never otherwise;
-a program with two `end` filters is outside the specification -/
+/-- **end_once**: with `r` the specification's stream loop over the program's filters from the state
+the non-filter statements left: a program without `end` filter prints what the loop's final state
+`r.1.1` holds; a program with one runs it exactly once, in that state with NP = the number of packets
+read (and PL, WL, TSS, TSU unset), and prints what its final state holds; a program with two `end`
+filters is outside the specification -/
 theorem end_once (p : Program) (pkts : List Pkt) (sel : List Nat) (out : List String)
     (e : Bool) (h : FilterSpec.run p pkts = .ok sel out e) :
-    (e = false ∧ endsOf p = []) ∨
-    (e = true ∧ ∃ act env st1 b st2, endsOf p = [act] ∧
-      runFilter env (setVars st1 (.int (Int64.ofNat pkts.length)) none) .fend act = (some b, st2) ∧
-      out = st2.out.reverse) := by
-  obtain ⟨env, st0, st1, _, _, hend⟩ := run_ok p pkts sel out e h
+    ∃ env st0, initOf p = some (env, st0) ∧
+      ((e = false ∧ endsOf p = [] ∧
+        out = (streamLoop (filtersOf env p) (st0, pkts) 1 (pkts.map fun _ => ())).1.1.out.reverse) ∨
+       (e = true ∧ ∃ act, endsOf p = [act] ∧
+        (runFilter env (setVars (streamLoop (filtersOf env p) (st0, pkts) 1 (pkts.map fun _ => ())).1.1
+          (.int (Int64.ofNat pkts.length)) none) .fend act).1.isSome ∧
+        out = (runFilter env (setVars (streamLoop (filtersOf env p) (st0, pkts) 1 (pkts.map fun _ => ())).1.1
+          (.int (Int64.ofNat pkts.length)) none) .fend act).2.out.reverse)) := by
+  obtain ⟨env, st0, hi, hr⟩ := stream_loop_refines p pkts sel out e h
+  refine ⟨env, st0, hi, ?_⟩
+  obtain ⟨_, _, hnp, hend⟩ := hr
+  rw [hnp] at hend
   match hes : endsOf p, hend with
-  | [], hend => exact Or.inl ⟨hend.1, rfl⟩
+  | [], hend => exact Or.inl ⟨hend.1, rfl, hend.2⟩
   | [act], hend =>
-    obtain ⟨he, b, st2, hr, ho⟩ := hend
-    exact Or.inr ⟨he, act, env, st1, b, st2, rfl, hr, ho⟩
+    obtain ⟨he, b, st2, hrun, ho⟩ := hend
+    exact Or.inr ⟨he, act, rfl, by rw [hrun]; rfl, by rw [hrun]; exact ho⟩
   | _ :: _ :: _, hend => exact hend.elim
 
 /-- the packet-variable step makes NP the packet's number, and `end` sees the number it is given -/
@@ -723,9 +922,12 @@ theorem setVars_np (st : St) (np : Val) (pk : Option Pkt) :
     (setVars st np pk).bvars.lookup "NP" = some np := by
   cases pk <;> rfl
 
+/-- in `end` only NP is set: reading PL, WL, TSS, TSU there is outside the specification -/
+theorem setVars_end (st : St) (np : Val) : (setVars st np none).bvars = [("NP", np)] := rfl
+
 theorem prep_np (st : St) (pk : Pkt) (rest : List Pkt) (np : Nat) :
     (prep.run (st, pk :: rest) np).1.1.bvars.lookup "NP" = some (.int (Int64.ofNat np)) ∧
-    (prep.run (st, pk :: rest) np).1.2 = rest ∧ (prep.run (st, pk :: rest) np).2 = some false :=
+    (prep.run (st, pk :: rest) np).1.2 = rest ∧ (prep.run (st, pk :: rest) np).2 = .sel false :=
   ⟨setVars_np _ _ _, rfl, rfl⟩
 
 /-! ## non-vacuity -/
@@ -734,13 +936,15 @@ section Examples
 
 /-- toy filters over a call counter: `always` selects every packet, `second` only packet 2,
 `failAt3` fails on packet 3 -/
-def always : Filter Nat := ⟨fun s _ => (s + 1, some true)⟩
-def second : Filter Nat := ⟨fun s np => (s + 1, some (np == 2))⟩
-def failAt3 : Filter Nat := ⟨fun s np => (s + 1, if np == 3 then none else some false)⟩
+def always : Filter Nat := ⟨fun s _ => (s + 1, .sel true)⟩
+def second : Filter Nat := ⟨fun s np => (s + 1, .sel (np == 2))⟩
+def failAt3 : Filter Nat := ⟨fun s np => (s + 1, if np == 3 then .fail else .sel false)⟩
+/-- the result on packet 2 is not a boolean -/
+def nonBoolAt2 : Filter Nat := ⟨fun s np => (s + 1, if np == 2 then .skipRest else .sel false)⟩
 
 -- 3 packets × 2 filters: packet 2 is written twice, consecutively; `end` would see NP = 3; 6 calls
 example : streamLoop [always, second] 0 1 [(), (), ()] = (6, [1, 2, 2, 3], 3) := by decide
-example : answers [always, second] 2 2 = [some true, some true] := by decide
+example : answers [always, second] 2 2 = [.sel true, .sel true] := by decide
 example : hitsPerPacket [always, second] 0 1 [(), (), ()] = [(1, 1), (2, 2), (3, 1)] := by decide
 -- the call sequence: (NP, filter) in packet order, then source order
 example : (streamLoop (instr 0 [always, second]) (0, []) 1 [(), (), ()]).1.2
@@ -749,7 +953,7 @@ example : (streamLoop (instr 0 [always, second]) (0, []) 1 [(), (), ()]).1.2
 -- it and stays selected (it has been written); `second` does not run on it; packet 4 is not read;
 -- `end` would see NP = 3
 example : streamLoop [always, failAt3, second] 0 1 [(), (), (), ()] = (8, [1, 2, 2, 3], 3) := by decide
-example : onPacket [always, failAt3, second] 6 3 = (8, [3], true) := by decide
+example : onPacket [always, failAt3, second] 6 3 = (8, [3], .stop) := by decide
 example : cleanRun [always, failAt3, second] 0 1 [(), ()] = some 6 := by decide
 example : hitsPerPacket [always, failAt3, second] 0 1 [(), (), (), ()] = [(1, 1), (2, 2), (3, 1)] := by decide
 -- … as `failing_filter_keeps_earlier_selections` says (pre = 2 packets, failure on the third)
@@ -759,6 +963,26 @@ example : streamLoop [always, failAt3, second] 0 1 ([(), ()] ++ () :: [()]) =
     (by decide) (by decide)).1
 example : (streamLoop (instr 0 [always, failAt3, second]) (0, []) 1 [(), (), (), ()]).1.2
     = [(1, 0), (1, 1), (1, 2), (2, 0), (2, 1), (2, 2), (3, 0), (3, 1)] := by decide
+
+-- a result that is not a boolean (bare `break`): on packet 2 `always` has selected it, `nonBoolAt2` ends
+-- that packet — `second` does not run on it (it would have selected it again) — and the stream goes on:
+-- packets 3 and 4 are processed, `end` would see NP = 4; 3 + 2 + 3 + 3 = 11 calls
+example : streamLoop [always, nonBoolAt2, second] 0 1 [(), (), (), ()] = (11, [1, 2, 3, 4], 4) := by decide
+example : onPacket [always, nonBoolAt2, second] 3 2 = (5, [2], .skip) := by decide
+example : answers [always, nonBoolAt2, second] 3 2 = [.sel true, .skipRest] := by decide
+example : hitsPerPacket [always, nonBoolAt2, second] 0 1 [(), (), (), ()] = [(1, 1), (2, 1), (3, 1), (4, 1)] := by decide
+-- … as `nonboolean_result_skips_rest_of_packet` says (clean prefix = 1 packet, then the non-boolean result)
+example : streamLoop ([always] ++ nonBoolAt2 :: [second]) 0 1 ([()] ++ () :: [(), ()]) =
+    ((streamLoop [always, nonBoolAt2, second] 5 3 [(), ()]).1,
+     (streamLoop [always, nonBoolAt2, second] 0 1 [()]).2.1 ++ [2] ++ (streamLoop [always, nonBoolAt2, second] 5 3 [(), ()]).2.1,
+     (streamLoop [always, nonBoolAt2, second] 5 3 [(), ()]).2.2) :=
+  (nonboolean_result_skips_rest_of_packet [always] [second] nonBoolAt2 [()] [(), ()] () 0 3 4 5 1 [2]
+    (by decide) (by decide) (by decide)).2
+-- the two kinds side by side, same position: `fail` stops the stream at packet 3, `skipRest` does not
+example : (streamLoop [always, failAt3, second] 0 1 [(), (), (), ()]).2 = ([1, 2, 2, 3], 3) := by decide
+example : (streamLoop [always, nonBoolAt2, second] 0 1 [(), (), (), ()]).2 = ([1, 2, 3, 4], 4) := by decide
+example : (streamLoop (instr 0 [always, nonBoolAt2, second]) (0, []) 1 [(), (), ()]).1.2
+    = [(1, 0), (1, 1), (1, 2), (2, 0), (2, 1), (3, 0), (3, 1), (3, 2)] := by decide
 
 deriving instance DecidableEq for FilterSpec.Outcome
 
@@ -791,9 +1015,23 @@ example : ∃ env st0, initOf exProg = some (env, st0) ∧
     [1, 2, 2, 3] = (streamLoop (filtersOf env exProg) (st0, exPkts) 1 [(), (), ()]).2.1 := by
   obtain ⟨env, st0, h0, h1, _⟩ := stream_loop_refines _ _ _ _ _ exRun
   exact ⟨env, st0, h0, h1⟩
-example : ∃ k : List Nat, k.length = 3 ∧
-    [1, 2, 2, 3] = ((List.range' 1 3).zip k).flatMap (fun ik => List.replicate ik.2 ik.1) :=
-  multiplicity_spec _ _ _ _ _ exRun
+example : ∃ env st0, initOf exProg = some (env, st0) ∧
+    [1, 2, 2, 3] = ((List.range' 1 3).zip
+      ((hitsPerPacket (filtersOf env exProg) (st0, exPkts) 1 [(), (), ()]).map Prod.snd)).flatMap
+        (fun ik => List.replicate ik.2 ik.1) := by
+  obtain ⟨env, st0, h0, _, _, h3⟩ := multiplicity_spec _ _ _ _ _ exRun
+  exact ⟨env, st0, h0, h3⟩
+example : ∃ env st0, initOf exProg = some (env, st0) ∧ ∃ act, endsOf exProg = [act] ∧
+    ["NP is 3", "two big packets"] = (runFilter env (setVars
+      (streamLoop (filtersOf env exProg) (st0, exPkts) 1 [(), (), ()]).1.1 (.int 3) none) .fend act).2.out.reverse := by
+  obtain ⟨env, st0, h0, h1⟩ := end_once _ _ _ _ _ exRun
+  rcases h1 with ⟨he, _⟩ | ⟨_, act, ha, _, ho⟩
+  · cases he
+  · exact ⟨env, st0, h0, act, ha, ho⟩
+-- an `end` filter that reads TSS (or PL, WL, TSU) is outside the specification
+example : FilterSpec.run ⟨[.filter 1 (.expr (.bool 1 true)) none,
+    .filter 2 .fend (some (.mk 2 [.exprS 2 (.call 2 (.ident 2 "puts" .get) [.ident 2 "TSS" .get])]))]⟩ exPkts = .unc := by
+  decide +kernel
 -- without `end`, and a program outside the specification (a non-boolean pattern)
 example : FilterSpec.run ⟨[.filter 1 (.expr (.bool 1 true)) none]⟩ exPkts = .ok [1, 2, 3] [] false := by
   decide +kernel
